@@ -123,7 +123,10 @@ def run(ctx):
                 "{0,4,5,2^32-1,2^32,2^64-1,random} on the case's side of the threshold, a fresh random key per 256 lengths; "
                 "then, per method, %d fresh Obfuscators (every 16th inside a fresh Session) whose first frames are encoded "
                 "concurrently by 2..8 goroutines released by a barrier (both placements, lengths 1..Max), each message decoded by "
-                "deobfuscate and the reference codec; distinct = (abstract case, payload length) resp. (method, k, length, placement)" % (len(cases), "every" if not q else "all <= 300, all within 300 of the maximum and 500 random",
+                "deobfuscate and the reference codec; finally a multi-frame Write and a ReadFrom run concurrently on one stream "
+                "(interleaving forced by a gated connection, then free-running) and every wire message is decoded with the "
+                "reference codec and matched against what each call handed over; distinct = (abstract case, payload length) "
+                "resp. (method, k, length, placement)" % (len(cases), "every" if not q else "all <= 300, all within 300 of the maximum and 500 random",
                                                    6000 if q else 60000),
         "samples": samples,
         "traces_validated_against_impl": ev,
